@@ -88,6 +88,7 @@ func runSolver(cfg SolverCfg, file string, timeoutS int) (status string, out str
 }
 
 type SolveOpts struct {
+	NoRetry  bool
 	OutDir   string
 	TimeoutS int
 	Race     bool // run all solvers and require agreement where more than one answers (thorough)
@@ -109,6 +110,28 @@ func discharge(obs []*Obligation, opt SolveOpts) {
 		}(o)
 	}
 	wg.Wait()
+	if opt.NoRetry {
+		return
+	}
+	// second chance for undecided obligations: a time-out under machine load must not become an alarm.
+	// They are re-run with little parallelism and twice the budget once everything else has finished.
+	var again []*Obligation
+	for _, o := range obs {
+		if !o.ok() && !o.ExpectSat && (o.Status == "timeout" || o.Status == "unknown" || o.Status == "error") {
+			again = append(again, o)
+		}
+	}
+	if len(again) == 0 || len(again) > 40 {
+		return // many undecided obligations: a real failure, not load
+	}
+	opt2 := opt
+	opt2.NoRetry = true
+	opt2.Workers = 4
+	opt2.TimeoutS = opt.TimeoutS * 2
+	for _, o := range again {
+		o.Retried = true
+	}
+	discharge(again, opt2)
 }
 
 func solveOne(o *Obligation, opt SolveOpts) {
